@@ -3,6 +3,37 @@
 import json, glob, os, re
 HERE = os.path.dirname(os.path.dirname(os.path.abspath(__file__)))
 STRENGTHENED = {
+ "C18-w3m1": "C18 sequence part gained a FASTA path whose content was replaced between two calls",
+ "C18-w3m2": "C18 bed12 part gained the always_return_list dimension",
+ "C08-w3m2": "C08 now prints every feature twice and compares the attributes before/after",
+ "C13-w3m3": "C13 gained a second live iterator of the same form over another annotation",
+ "C12-w3m2": "C12 now asks both conventions in one execution, in both orders",
+ "C03-w3m2": "engine: order-dependent violations are confirmed by replaying the reporting worker's execution history in a fresh process",
+ "C14-w3m1": "C14 gained a second iterator alive at the same time",
+ "C14-w3m3": "C14 alphabet gained the bare '##' line",
+ "C17-w3m3": "C17 JSON part now edits a decoded mapping in place and decodes the same text again",
+ "C15-w3m2": "C15 features gained a multi-valued unsorted key carried by only one neighbour",
+ "C11-w3m1": "C10 now performs ordinary reads between operations and compares the live object's counts and look-ups (reported by C10: the trigger is a delete between two counts)",
+ "C07-w3m2": "C07 column variants gained single extra columns holding JSON literals / empty text",
+ "C05-w3m1": "caught as built (its first run hit an unrelated one-off engine error under load)",
+ "C20-w3m1": "C20: the controller runs a solitary import with the shared temp dir before forking; the vacuity self-check no longer masks violations",
+ "C20-w3m2": "C20 gained a scheduling point at job start (start offsets) and a force=True job over an existing database",
+ "C20-w3m3": "C20 gained a job whose input is a file:// URL",
+ "C02-w3m2": "C02 gained nested and interleaved consumption of two result iterators",
+ "C02-w3m3": "reported by C10 (the trigger is an update of a 4-deep hierarchy)",
+ "C01-w3m1": "C01 'late' shape now introduces late keys in non-alphabetical order",
+ "C01-w3m3": "reported by C07; C01 files gained lines with only one '.' coordinate",
+ "C04-w3m1": "C04 gained the 'ID=' (present but empty) line kind",
+ "C04-w3m3": "C04 now edits a looked-up feature and looks it up again; C10 reports the delete variant",
+ "C16-w3m2": "C16 database part gained merge_all with non-default criteria",
+ "C16-w3m3": "engine history replay; C16 also gained the 'after children_bp(merge=True)' object history",
+ "C09-w3m1": "grammar gained the key=\"value\" style (12 more dialects in C01/C07/C09)",
+ "C09-w3m2": "C09 mixtures gained lines with an empty attribute column (weight 0)",
+ "C09-w3m3": "C09 now edits one infer_dialect answer and asks again",
+ "C19-w3m1": "C19 gained a 4-deep hierarchy and level=3 relative queries",
+ "C19-w3m2": "C19 clobber part opens the old database in-process first and inspects the object returned by the forced import (plus engine history replay)",
+ "C19-w3m3": "C19 gained a GTF database built with inference disabled and look-ups of absent ids",
+
  "C01-m2": "C01 file shapes gained empty trailing extra columns",
  "C05-m1": "C05 now compares level-2 relations (GFF3 grandparents, GTF gene_id) as well as level-1",
  "C09-m1": "C09 gained the cross-form check (list of Features vs path); C13 caught it as built",
@@ -29,7 +60,9 @@ text = """
 ## 12. Seeded property-breaking changes and which check catches which
 
 Each change below was written by a fresh sub-agent that was given only the text of one property and a
-scratch git worktree of /repo (nothing from /verif). Each was then confirmed here in a scratch copy
+scratch git worktree of /repo (nothing from /verif); the third wave (ids `*-w3m*`) was additionally told
+which changes earlier agents had proposed for that property (their own notes, nothing about the checks)
+and asked for different mechanisms - state kept across calls, ordering, boundaries, rarely used options. Each was then confirmed here in a scratch copy
 outside /repo and /verif (`tools/seed.py`): the agent's demonstration passes on the unmodified copy, the
 patch applies, the pinned suite still shows 74 passed, the demonstration fails on the patched copy; the
 quick check(s) were run against the patched copy with `GV_REPO`. Kept as `/verif/seeded/<id>/`
